@@ -2,11 +2,12 @@
 Shares its machinery (tracer, histories, model replay) with harness/props/c04.py.
 
 C02 step 3 (Props/C02rec.v): on top of the shared driver this check evaluates, inside Coq,
-  * monA_ok (Model/TreeStateRec.v) on EVERY recorded primitive trace: the boolean precondition
-    primA_pre_b of C02rec_prim_preserves_A (C04's prim_pre_b plus "legs supplied for the root carry the
-    declared output order") holds for every covered primitive at the state the model reaches;
-  * sorted_keys_b on every state in which a contraction just ran (a side condition of
-    C02rec_history_value; preproc_complete_b is part of contractible_b, evaluated by the driver)."""
+  * mon2_ok (Model/TreeStatePre2.v) on EVERY recorded primitive trace: the boolean precondition
+    primA_pre2_b of C02fin_prim_preserves (C04's preconditions with the dfs facts replaced by complete_b,
+    total_flops / total_write / max_size covered, plus "legs supplied for the root carry the declared
+    output order") holds for every primitive at the state the model reaches;
+  * sorted_keys_b && complete_b on every state in which a contraction just ran (the side conditions of
+    C02fin_history_value)."""
 import os
 import sys
 import time
@@ -46,19 +47,19 @@ def monitor_A(ctx, coq_cases, captured):
             continue
         body = lhs[len(pre):]
         k = body.rfind(")")          # "... [(tid, PRE)]) post_tid"
-        mon_cases.append((label + ".preA", "monA_ok " + body[:k], "true"))
+        mon_cases.append((label + ".pre2", "mon2_ok " + body[:k], "true"))
     if mon_cases:
         t0 = time.time()
-        failing = coq_cases("c02_preA", ["TreeState", "TreeStatePre", "TreeStateRec"], mon_cases,
+        failing = coq_cases("c02_pre2", ["TreeState", "TreeStatePre", "TreeStateRec", "TreeStatePre2"], mon_cases,
                             chunk=max(20, len(mon_cases) // 48 + 1), timeout=900)
-        ctx.log("precondition monitor of (A) on %d traces in %.1fs, %d failing" % (
+        ctx.log("precondition monitor (primA_pre2_b, all primitives covered) on %d traces in %.1fs, %d failing" % (
             len(mon_cases), time.time() - t0, len(failing)))
         ctx.count("preA_traces_checked", len(mon_cases))
         for idx, label, val in failing[:5]:
-            ctx.fail("a recorded primitive does not meet the precondition of C02rec_prim_preserves_A (primA_pre_b)",
+            ctx.fail("a recorded primitive does not meet the precondition of C02fin_prim_preserves (primA_pre2_b)",
                      {"label": label, "case": mon_cases[idx][1][:4000] if idx < len(mon_cases) else None,
                       "monitor": val,
-                      "correspondence": "monA_ok (Model/TreeStateRec.v) on the recorded primitive trace"},
+                      "correspondence": "mon2_ok (Model/TreeStatePre2.v) on the recorded primitive trace"},
                      found_input=False)
     # --- side condition of C02rec_history_value on the states in which a contraction ran --------
     sk_cases = []
@@ -68,20 +69,20 @@ def monitor_A(ctx, coq_cases, captured):
         args = split_top(lhs[len("contractible_b "):])
         if len(args) != 3:
             continue
-        sk_cases.append((label + ".sorted", "sorted_keys_b %s" % args[1], "true"))
+        sk_cases.append((label + ".sorted", "sorted_keys_b %s && complete_b %s %s" % (args[1], args[0], args[1]), "true"))
     if sk_cases:
         t0 = time.time()
         failing = coq_cases("c02_sorted", ["TreeState", "TreeStatePre", "TreeStateRec"], sk_cases,
                             chunk=max(20, len(sk_cases) // 48 + 1), timeout=600)
-        ctx.log("sorted_keys_b on %d ready states in %.1fs, %d failing" % (len(sk_cases), time.time() - t0, len(failing)))
+        ctx.log("sorted_keys_b && complete_b on %d ready states in %.1fs, %d failing" % (len(sk_cases), time.time() - t0, len(failing)))
         for idx, label, val in failing[:5]:
             ctx.fail("a state in which a contraction ran has a children dict that is not keyed by sorted nodes "
-                     "(side condition sorted_keys_b of C02rec_history_value)",
+                     "or is not complete (side conditions sorted_keys_b / complete_b of C02fin_history_value)",
                      {"label": label, "value": val}, found_input=False)
     ctx.assumptions.append(
-        "C02rec_history_value: boolean premises about the end state that are evaluated per run, not derived: "
-        "no exception, complete tree keyed by sorted nodes (sorted_keys_b), preproc_complete_b (inside contractible_b); "
-        "the per-primitive preconditions primA_pre_b are evaluated on every recorded trace (monA_ok)")
+        "C02fin_history_value: boolean premises about the end state that are evaluated per run, not derived: "
+        "no exception, complete_b, sorted_keys_b; the per-primitive preconditions primA_pre2_b (every primitive "
+        "covered, the tree mentioned only through complete_b) are evaluated on every recorded trace (mon2_ok)")
 
 
 def run(ctx):
